@@ -28,6 +28,7 @@ def run(rep, F, ctx):
     cg.prune_never_err()
     M, ok_only = atomic.fail_atomic(rep, F, cg)
     atomic.who_writes(rep, F, cg, engine.load_table('who_writes.json'))
+    atomic.who_calls(rep, F, cg, engine.load_table('who_calls.json'))
     # cwd stays absolute: the only caller of set_cwd passes an abs() result
     rep.rule('CWD-ABS', 'every argument of MemfsGuard::set_cwd originates from Memfs::_abs (so cwd stays a clean absolute path)')
     n_cwd = 0
